@@ -249,13 +249,18 @@ Definition dec_of (s : bytes) : option N :=
   match s with [] => None | _ => if forallb is_dec s then Some (num_val 10 s) else None end.
 Definition is_sign (c : ascii) : bool := Ascii.eqb c c_plus || Ascii.eqb c c_minus.
 
-(* uid/gid "integer ID": 0..2^31-1 must be taken, 2^32 and above must be refused *)
+(* uid/gid "integer ID": 0..2^31-1 must be taken, 2^32 and above and negative numbers must be refused *)
 Definition id_status (s : bytes) : status * N :=
   match dec_of s with
   | Some v => if v <=? 2147483647 then (MustAccept, v)
               else if v <=? 4294967295 then (Either, v) else (MustReject, v)
   | None => match s with
-            | c :: r => if is_sign c then match dec_of r with Some _ => (Free, 0) | None => (MustReject, 0) end
+            | c :: r => if is_sign c then
+                          match dec_of r with
+                          | Some w => if Ascii.eqb c c_minus && negb (w =? 0) then (MustReject, 0)   (* negative *)
+                                      else (Free, 0)                                              (* +N, -0 *)
+                          | None => (MustReject, 0)
+                          end
                         else (MustReject, 0)
             | [] => (MustReject, 0)
             end
